@@ -13,7 +13,9 @@ mistake is only observable when the payload object is shared, i.e. from a non-in
 from __future__ import annotations
 
 import contextvars
+import copy
 import itertools
+import operator
 
 from mc import core, gen, ilv
 
@@ -21,10 +23,15 @@ ID = "C18"
 LEVEL = "model_checking"
 RULE = (
     "programs = every tuple of operation lists over the op alphabet (set/get/del attribute, iterate, push/pop/top, "
-    "release, LocalManager.cleanup, proxy read of Local attr / stack top / ContextVar, proxy created late, in-place "
-    "mutation of a by-value shared list through a proxy, ContextVar.set, spawn child) for 2 siblings, parent+child "
-    "(spawn at every position) and 3 siblings, x 2 start states (empty root / root that has set, pushed, stored a "
-    "list, set the var) x EVERY merge order x realisations ctx/thr/aio; line level: 2 sibling threads, every "
+    "release (both / Local only / stack only), LocalManager.cleanup for three manager constructions, a WSGI request "
+    "through make_middleware / middleware with the ClosingIterator closed now or later, proxy read of Local attr / "
+    "stack top / ContextVar / callable / named attribute, operator batteries through every _ProxyLookup class, proxy "
+    "created late, in-place mutation of a by-value shared list through a proxy (append, +=, item assignment), two "
+    "Local / LocalStack objects over one ContextVar, one-shot hops into a worker thread with (to_thread) and without "
+    "(run_in_executor) context propagation, ContextVar.set, spawn child) for 2 siblings, parent+child "
+    "(spawn at every position), 3 siblings and two actors inside ONE context plus a sibling, x start states (empty root / root that has set, pushed, stored a "
+    "list, set the var) x EVERY merge order x realisations ctx/thr/aio/aiox (tasks with explicit context=); line level: 2 "
+    "sibling threads and parent + child spawned mid-program, every "
     "schedule with <=2 preemptions at line granularity inside werkzeug/local.py. state = (step, model of all "
     "contexts); transition = one operation executed on the real objects followed by a probe of every context. "
     "non-trivial = distinct (start, programs, order) in which at least two contexts write."
@@ -43,40 +50,139 @@ from werkzeug.local import Local, LocalManager, LocalProxy, LocalStack, release_
 
 TARGET = wl.__file__
 UNSET = "<unset>"
-UNBOUND = ("RE", False, "<LocalProxy unbound>")
+FALLBACK_REPR = "<LocalProxy unbound>"
+MSG_DEFAULT = "object is not bound"
+MSG_X = "c18: no x in this context"
+MSG_CV = "c18: var unset in this context"
 
 if tuple(LocalStack.__slots__) != ("_storage",) or tuple(Local.__slots__) != ("__storage",):
     raise core.Broken(f"Local / LocalStack slots changed: {Local.__slots__} {LocalStack.__slots__}")
 
 
+class _Any:
+    """Matches everything: marks places where the statement does not decide the outcome."""
+
+    def __eq__(self, other):
+        return True
+
+    def __ne__(self, other):
+        return False
+
+    def __hash__(self):
+        return 0
+
+    def __repr__(self):
+        return "*"
+
+
+ANY = _Any()
+
+
+class OneOf:
+    """Matches any of the listed outcomes."""
+
+    def __init__(self, *opts):
+        self.opts = opts
+
+    def __eq__(self, other):
+        return any(other == o for o in self.opts)
+
+    def __ne__(self, other):
+        return not self.__eq__(other)
+
+    def __hash__(self):
+        return 0
+
+    def __repr__(self):
+        return "one of " + repr(self.opts)
+
+
 # ------------------------------------------------------------------ the world (real objects)
 
 class World:
-    __slots__ = ("loc", "st", "mgr", "cv", "px", "pl", "pt", "pcv", "dyn")
+    """ext=False: the round-1 world (one Local, one LocalStack, one var, four long-lived proxies).
+    ext=True adds, eagerly, every other proxy constructor form and the twin objects, and the probe reads them too.
+    Everything else (custom-message / named proxies, the two other managers, the middlewares) is made on first use."""
 
-    def __init__(self):
-        self.loc = Local()
-        self.st = LocalStack()
-        self.mgr = LocalManager([self.loc, self.st])
+    __slots__ = ("ext", "loc", "st", "mgr", "cv", "px", "pl", "pt", "pcv", "dyn", "lazy",
+                 "py", "ptn", "pcn", "pf", "la", "lb", "sa", "sb", "pz", "open")
+
+    def __init__(self, ext=False):
+        self.ext = ext
+        loc = self.loc = Local()
+        st = self.st = LocalStack()
+        self.mgr = LocalManager([loc, st])
         self.cv = contextvars.ContextVar("c18.cv")
-        self.px = self.loc("x")
-        self.pl = self.loc("l")
-        self.pt = self.st()
+        self.px = loc("x")
+        self.pl = loc("l")
+        self.pt = st()
         self.pcv = LocalProxy(self.cv)
         self.dyn = None
+        self.lazy = {}
+        self.open = {}
+        if ext:
+            self.py = LocalProxy(loc, "y")                # direct constructor form
+            self.ptn = st("real")                         # attribute of the top item
+            self.pcn = LocalProxy(self.cv, "real", unbound_message=MSG_CV)
+            self.pf = LocalProxy(lambda: getattr(loc, "x", "nox"))   # callable form, always bound
+            # two Local / LocalStack objects sharing ONE ContextVar each
+            cvd = contextvars.ContextVar("c18.twin.dict")
+            cvs = contextvars.ContextVar("c18.twin.list")
+            self.la, self.lb = Local(cvd), Local(cvd)
+            self.sa, self.sb = LocalStack(cvs), LocalStack(cvs)
+            self.pz = self.lb("z")
+
+    def get(self, name):
+        v = self.lazy.get(name)
+        if v is not None:
+            return v
+        loc, st = self.loc, self.st
+        if name == "pm":
+            v = loc("x", unbound_message=MSG_X)
+        elif name == "py":
+            v = self.py if self.ext else LocalProxy(loc, "y")
+        elif name == "ptn":
+            v = self.ptn if self.ext else st("real")
+        elif name == "pcn":
+            v = self.pcn if self.ext else LocalProxy(self.cv, "real", unbound_message=MSG_CV)
+        elif name == "mgr1":
+            v = LocalManager(loc)                         # a single Local
+        elif name == "mgr0":
+            v = LocalManager()                            # empty, filled afterwards
+            v.locals.append(st)
+        elif name in ("mw", "mwd"):
+            def app(environ, start_response):
+                loc.r = 7
+                st.push(7)
+                start_response("200 OK", [])
+                return [b"x", b"y"]
+            v = self.mgr.make_middleware(app) if name == "mw" else self.mgr.middleware(app)
+        else:
+            raise core.Broken(f"unknown lazy object {name}")
+        self.lazy[name] = v
+        return v
 
 
 def render(v):
     return ("L",) + tuple(v) if isinstance(v, list) else v
 
 
+def val(tok):
+    """Value tokens of the op alphabet: digits = int; e = "" ; N = None ; F = False - the falsy ones are BOUND values
+    (a proxy bound to 0 / "" / False, or a Local attribute holding None, is bound; only an empty stack, a missing
+    attribute, an unset var are unbound)."""
+    return {"e": "", "N": None, "F": False}.get(tok, None) if tok in ("e", "N", "F") else int(tok)
+
+
 def rd(p):
     """Everything the statement says about a proxy: resolves in the accessing context, or reports itself unbound
-    (RuntimeError, falsy, fallback repr)."""
+    (RuntimeError with the configured message, falsy, fallback repr)."""
     try:
         obj = p._get_current_object()
-    except RuntimeError:
-        return ("RE", bool(p), repr(p))
+    except RuntimeError as e:
+        return ("RE", bool(p), repr(p), str(e))
+    except AttributeError:
+        return ("no-such-attribute-on-the-bound-object",)
     return (render(obj), bool(p), repr(p))
 
 
@@ -86,24 +192,124 @@ def res(p):
         return render(p._get_current_object())
     except RuntimeError:
         return "RE"
+    except AttributeError:
+        return "no-such-attribute-on-the-bound-object"
 
 
 def observe(w):
-    """The probe run in every context after every step: all attributes, the whole stack, the var, and what each
-    long-lived proxy resolves to in THIS context."""
+    """The probe run in every context after every step: all attributes, the whole stack, the var, what each
+    long-lived proxy resolves to in THIS context; in the extended world also every other constructor form and both
+    views of the twin objects."""
+    if not w.ext:
+        return (
+            tuple(sorted([(k, render(v)) for k, v in w.loc])),
+            tuple(w.st._storage.get(())),
+            w.cv.get(UNSET),
+            res(w.px), res(w.pt), res(w.pcv), res(w.pl),
+        )
     return (
         tuple(sorted([(k, render(v)) for k, v in w.loc])),
         tuple(w.st._storage.get(())),
         w.cv.get(UNSET),
-        res(w.px), res(w.pt), res(w.pcv), res(w.pl),
+        res(w.px), res(w.pt), res(w.pcv), res(w.pl), res(w.py), res(w.ptn), res(w.pcn), res(w.pf),
+        tuple(sorted(w.la)), tuple(sorted(w.lb)), tuple(w.sa._storage.get(())), w.sb.top, res(w.pz),
     )
+
+
+def cap(f, p):
+    try:
+        return render(f(p))
+    except core.Broken:
+        raise
+    except Exception as e:  # noqa: BLE001
+        return ("X", type(e).__name__)
+
+
+def _iop_int(p):
+    q = p
+    q += 1          # _ProxyIOp: forwards to the bound object, hands the proxy back
+    return q is p
+
+
+RE_ = ("X", "RuntimeError")
+# CPython's slot wrappers swallow an exception raised while *looking up* __eq__/__lt__/__hash__ on the type (the
+# descriptor's RuntimeError) and fall back to identity comparison / "not supported" / "unhashable": an unbound
+# proxy then compares unequal to everything and is unorderable / unhashable.  Either way it does not pretend to
+# be an object of another context, which is what the statement is about.
+RE_OR_FALSE = OneOf(RE_, False)
+RE_OR_TYPEERROR = OneOf(RE_, ("X", "TypeError"))
+RE_T = RE_OR_TYPEERROR
+# (what, real-side function, function on the raw bound value (None = same), outcome when nothing is bound)
+#   one entry per forwarding class of _ProxyLookup: C function via partial, r-op wrapper, Python function via
+#   __get__, plain getattr, fallback, is_attr fallback, _ProxyIOp, copy, method lookup through __getattr__
+INT_BATTERY = [
+    ("add", lambda p: p + 1, None, RE_T),
+    ("radd", lambda p: 1 + p, None, RE_T),
+    ("rpow", lambda p: 2 ** p, None, RE_T),
+    ("eq", lambda p: p == 2, None, RE_OR_FALSE),
+    ("lt", lambda p: p < 2, None, RE_OR_TYPEERROR),
+    ("str", str, None, RE_T),
+    ("format", lambda p: format(p, "03d"), None, RE_T),
+    ("int", int, None, RE_T),
+    ("hash", hash, None, RE_OR_TYPEERROR),
+    ("neg", lambda p: -p, None, RE_T),
+    ("getattr", lambda p: p.real, None, RE_T),
+    ("method", lambda p: p.bit_length(), None, RE_T),
+    ("copy", copy.copy, None, RE_T),
+    ("deepcopy", copy.deepcopy, None, RE_T),
+    ("divmod", lambda p: divmod(p, 2), None, RE_T),
+    ("index", operator.index, None, RE_T),
+    ("round", round, None, RE_T),
+    ("iop", _iop_int, lambda v: (operator.iadd(v, 1), True)[1], RE_T),
+    ("bool", bool, None, False),
+    ("repr", repr, None, FALLBACK_REPR),
+    ("isinstance", lambda p: isinstance(p, int), None, ANY),
+    ("class", lambda p: p.__class__ is int, None, ANY),
+    ("dir", lambda p: "bit_length" in dir(p), None, ANY),
+    ("wrapped", lambda p: type(p.__wrapped__).__name__, None, ANY),
+]
+LIST_BATTERY = [
+    ("len", len, None, RE_T),
+    ("iter", lambda p: list(iter(p)), None, RE_T),
+    ("contains", lambda p: 0 in p, None, RE_T),
+    ("getitem", lambda p: p[0], None, RE_T),
+    ("add", lambda p: p + [9], None, RE_T),
+    ("radd", lambda p: [9] + p, None, RE_T),
+    ("mul", lambda p: p * 2, None, RE_T),
+    ("reversed", lambda p: list(reversed(p)), None, RE_T),
+    ("eq", lambda p: p == [], None, RE_OR_FALSE),
+    ("count", lambda p: p.count(0), None, RE_T),
+    ("copy", copy.copy, None, RE_T),
+    ("str", str, None, RE_T),
+    ("bool", bool, None, False),
+    ("repr", repr, None, FALLBACK_REPR),
+    ("class", lambda p: p.__class__ is list, None, ANY),
+]
+
+
+def battery(bat, p):
+    return tuple(cap(f, p) for _n, f, _m, _u in bat)
+
+
+def m_battery(bat, bound, v):
+    if not bound:
+        return tuple(u for _n, _f, _m, u in bat)
+    return tuple(cap(m if m is not None else f, v) for _n, f, m, _u in bat)
+
+
+def _environ(cid):
+    return {"REQUEST_METHOD": "GET", "c18.cid": cid}
+
+
+def _sr(status, headers, exc_info=None):
+    return None
 
 
 def do(w, op, cid):
     loc, st = w.loc, w.st
     if op[:4] == "set ":
         k, v = op[4:].split("=")
-        setattr(loc, k, int(v))
+        setattr(loc, k, val(v))
         return None
     if op == "get x":
         try:
@@ -119,7 +325,7 @@ def do(w, op, cid):
     if op == "iter":
         return tuple(sorted((k, render(v)) for k, v in loc))
     if op[:5] == "push ":
-        return tuple(st.push(int(op[5:])))
+        return tuple(st.push(val(op[5:])))
     if op == "pop":
         return st.pop()
     if op == "top":
@@ -128,15 +334,41 @@ def do(w, op, cid):
         release_local(loc)
         release_local(st)
         return None
+    if op == "release loc":
+        release_local(loc)
+        return None
+    if op == "release st":
+        release_local(st)
+        return None
     if op == "cleanup":
         w.mgr.cleanup()
         return None
+    if op == "cleanup0":
+        w.get("mgr0").cleanup()
+        return None
+    if op == "cleanup1":
+        w.get("mgr1").cleanup()
+        return None
     if op == "proxy x":
-        return rd(w.px)
+        return (rd(w.px), rd(w.get("pm")), rd(w.get("py")))
     if op == "proxy top":
-        return rd(w.pt)
+        return (rd(w.pt), rd(w.get("ptn")))
     if op == "proxy cv":
+        return (rd(w.pcv), rd(w.get("pcn")))
+    if op == "rd x":
+        return rd(w.px)
+    if op == "rd top":
+        return rd(w.pt)
+    if op == "rd cv":
         return rd(w.pcv)
+    if op == "bat x":
+        return battery(INT_BATTERY, w.px)
+    if op == "bat top":
+        return battery(INT_BATTERY, w.pt)
+    if op == "bat cv":
+        return battery(INT_BATTERY, w.get("pcn"))
+    if op == "bat l":
+        return battery(LIST_BATTERY, w.pl)
     if op == "newlist":
         loc.l = []
         return None
@@ -146,52 +378,130 @@ def do(w, op, cid):
             return None
         except RuntimeError:
             return "RE"
+    if op == "iadd":
+        try:
+            r = operator.iadd(w.pl, [cid])
+        except RuntimeError:
+            return "RE"
+        return None if r is w.pl else ("NOT-THE-PROXY", type(r).__name__)
+    if op == "setitem0":
+        try:
+            w.pl[0] = cid
+            return None
+        except RuntimeError:
+            return "RE"
+        except IndexError:
+            return "IE"
     if op[:3] == "cv=":
-        w.cv.set(int(op[3:]))
+        w.cv.set(val(op[3:]))
         return None
     if op == "mkproxy":
         w.dyn = w.loc("x")
         return None
     if op == "proxy dyn":
         return rd(w.dyn) if w.dyn is not None else "NOPROXY"
+    # ---- WSGI request through the manager's middleware
+    if op == "mwopen":
+        it = w.get("mw")(_environ(cid), _sr)
+        body = b"".join(it)
+        w.open[cid] = it
+        return body
+    if op == "mwclose":
+        it = w.open.pop(cid, None)
+        if it is None:
+            return "NOITER"
+        it.close()
+        return None
+    if op == "mw":
+        it = w.get("mwd")(_environ(cid), _sr)
+        body = b"".join(it)
+        it.close()
+        return body
+    # ---- twin objects over one ContextVar
+    if op[:6] == "a.set ":
+        k, v = op[6:].split("=")
+        setattr(w.la, k, int(v))
+        return None
+    if op[:6] == "b.set ":
+        k, v = op[6:].split("=")
+        setattr(w.lb, k, int(v))
+        return None
+    if op == "b.del z":
+        try:
+            del w.lb.z
+            return None
+        except AttributeError:
+            return "AE"
+    if op == "a.get z":
+        return getattr(w.la, "z", "AE")
+    if op == "a.release":
+        release_local(w.la)
+        return None
+    if op[:8] == "sa.push ":
+        return tuple(w.sa.push(int(op[8:])))
+    if op == "sb.pop":
+        return w.sb.pop()
+    if op == "sb.release":
+        release_local(w.sb)
+        return None
     raise core.Broken(f"unknown op {op!r}")
 
 
 # ------------------------------------------------------------------ the reference model
 
 class G:
-    """Model globals: the heap of by-value shared lists and whether the late proxy exists."""
-    __slots__ = ("heap", "dyn")
+    """Model globals: the heap of by-value shared lists, whether the late proxy exists, open middleware iterators."""
+    __slots__ = ("heap", "dyn", "open")
 
     def __init__(self):
         self.heap = []
         self.dyn = False
+        self.open = set()
 
 
-M0 = ((), (), UNSET)   # (sorted attr items, stack, var); attr values: int or ("ref", k)
+# (sorted attr items, stack, var, twin attr items, twin stack); attr values: int or ("ref", k)
+M0 = ((), (), UNSET, (), ())
 
 
 def _val(g, v):
     return g.heap[v[1]] if isinstance(v, tuple) else v
 
 
-def m_rd(g, bound, v=None):
+def unbound(msg=MSG_DEFAULT):
+    return ("RE", False, FALLBACK_REPR, msg)
+
+
+NOATTR = "no-such-attribute-on-the-bound-object"
+
+
+def m_rd(g, bound, v=None, msg=MSG_DEFAULT, name=None):
     if not bound:
-        return UNBOUND
+        return unbound(msg)
     v = _val(g, v)
+    if name is not None:
+        if not hasattr(v, name):
+            return (NOATTR,)
+        v = getattr(v, name)
     return (render(v), bool(v), repr(v))
+
+
+def m_named(bound, v, name="real"):
+    if not bound:
+        return "RE"
+    return getattr(v, name) if hasattr(v, name) else NOATTR
 
 
 _MO_CACHE: dict = {}
 
 
-def m_observe(g, m):
+def m_observe(g, m, ext=True):
     key = (m, tuple(map(tuple, g.heap))) if g.heap else m
     hit = _MO_CACHE.get(key)
     if hit is not None:
-        return hit
-    d, s, c = m
+        return hit if ext else hit[:7]
+    d, s, c, d2, s2 = m
     dd = dict(d)
+    dd2 = dict(d2)
     out = (
         tuple((k, render(_val(g, v))) for k, v in d),
         s,
@@ -200,10 +510,15 @@ def m_observe(g, m):
         s[-1] if s else "RE",
         c if c != UNSET else "RE",
         render(_val(g, dd["l"])) if "l" in dd else "RE",
+        dd["y"] if "y" in dd else "RE",
+        m_named(bool(s), s[-1] if s else None),
+        m_named(c != UNSET, c),
+        dd["x"] if "x" in dd else "nox",
+        d2, d2, s2, (s2[-1] if s2 else None), (dd2["z"] if "z" in dd2 else "RE"),
     )
     if len(_MO_CACHE) < 200_000:
         _MO_CACHE[key] = out
-    return out
+    return out if ext else out[:7]
 
 
 def _with(d, k, v):
@@ -212,52 +527,116 @@ def _with(d, k, v):
     return tuple(sorted(dd.items()))
 
 
+def _without(d, k):
+    return tuple((a, b) for a, b in d if a != k)
+
+
 def m_do(g, m, op, cid):
     """-> (new model state of the acting context, expected result)"""
-    d, s, c = m
+    d, s, c, d2, s2 = m
     dd = dict(d)
+    if op[:3] in ("tt:", "ex:"):
+        # one-shot hop: a copy of this context (tt) or an empty context (ex); whatever it writes is gone with it
+        _m, r = m_do(g, m if op[0] == "t" else M0, op[3:], cid)
+        return m, r
     if op[:4] == "set ":
         k, v = op[4:].split("=")
-        return (_with(d, k, int(v)), s, c), None
+        return (_with(d, k, val(v)), s, c, d2, s2), None
     if op == "get x":
         return m, (_val(g, dd["x"]) if "x" in dd else "AE")
     if op == "del x":
         if "x" in dd:
-            del dd["x"]
-            return (tuple(sorted(dd.items())), s, c), None
+            return (_without(d, "x"), s, c, d2, s2), None
         return m, "AE"
     if op == "iter":
         return m, tuple((k, render(_val(g, v))) for k, v in d)
     if op[:5] == "push ":
-        s2 = s + (int(op[5:]),)
-        return (d, s2, c), s2
+        sn = s + (val(op[5:]),)
+        return (d, sn, c, d2, s2), sn
     if op == "pop":
-        return ((d, s[:-1], c), s[-1]) if s else (m, None)
+        return ((d, s[:-1], c, d2, s2), s[-1]) if s else (m, None)
     if op == "top":
         return m, (s[-1] if s else None)
     if op in ("release", "cleanup"):
-        return ((), (), c), None
+        return ((), (), c, d2, s2), None
+    if op in ("release loc", "cleanup1"):
+        return ((), s, c, d2, s2), None
+    if op in ("release st", "cleanup0"):
+        return (d, (), c, d2, s2), None
     if op == "proxy x":
-        return m, m_rd(g, "x" in dd, dd.get("x"))
+        return m, (m_rd(g, "x" in dd, dd.get("x")), m_rd(g, "x" in dd, dd.get("x"), MSG_X),
+                   m_rd(g, "y" in dd, dd.get("y")))
     if op == "proxy top":
-        return m, m_rd(g, bool(s), s[-1] if s else None)
+        return m, (m_rd(g, bool(s), s[-1] if s else None), m_rd(g, bool(s), s[-1] if s else None, name="real"))
     if op == "proxy cv":
+        return m, (m_rd(g, c != UNSET, c), m_rd(g, c != UNSET, c, MSG_CV, name="real"))
+    if op == "rd x":
+        return m, m_rd(g, "x" in dd, dd.get("x"))
+    if op == "rd top":
+        return m, m_rd(g, bool(s), s[-1] if s else None)
+    if op == "rd cv":
         return m, m_rd(g, c != UNSET, c)
+    if op == "bat x":
+        return m, m_battery(INT_BATTERY, "x" in dd, dd.get("x"))
+    if op == "bat top":
+        return m, m_battery(INT_BATTERY, bool(s), s[-1] if s else None)
+    if op == "bat cv":
+        if c != UNSET and not hasattr(c, "real"):
+            return m, tuple(ANY for _ in INT_BATTERY)       # the bound object has no such attribute: not our subject
+        return m, m_battery(INT_BATTERY, c != UNSET, c.real if c != UNSET else None)
+    if op == "bat l":
+        return m, m_battery(LIST_BATTERY, "l" in dd, _val(g, dd["l"]) if "l" in dd else None)
     if op == "newlist":
         g.heap.append([])
-        return (_with(d, "l", ("ref", len(g.heap) - 1)), s, c), None
-    if op == "append":
+        return (_with(d, "l", ("ref", len(g.heap) - 1)), s, c, d2, s2), None
+    if op in ("append", "iadd"):
         if "l" in dd:
             _val(g, dd["l"]).append(cid)
             return m, None
         return m, "RE"
+    if op == "setitem0":
+        if "l" not in dd:
+            return m, "RE"
+        lst = _val(g, dd["l"])
+        if not lst:
+            return m, "IE"
+        lst[0] = cid
+        return m, None
     if op[:3] == "cv=":
-        return (d, s, int(op[3:])), None
+        return (d, s, val(op[3:]), d2, s2), None
     if op == "mkproxy":
         g.dyn = True
         return m, None
     if op == "proxy dyn":
         return m, (m_rd(g, "x" in dd, dd.get("x")) if g.dyn else "NOPROXY")
+    if op == "mwopen":
+        g.open.add(cid)
+        return (_with(d, "r", 7), s + (7,), c, d2, s2), b"xy"
+    if op == "mwclose":
+        if cid not in g.open:
+            return m, "NOITER"
+        g.open.discard(cid)
+        return ((), (), c, d2, s2), None
+    if op == "mw":
+        return ((), (), c, d2, s2), b"xy"
+    if op[:6] in ("a.set ", "b.set "):
+        k, v = op[6:].split("=")
+        return (d, s, c, _with(d2, k, int(v)), s2), None
+    if op == "b.del z":
+        if "z" in dict(d2):
+            return (d, s, c, _without(d2, "z"), s2), None
+        return m, "AE"
+    if op == "a.get z":
+        return m, dict(d2).get("z", "AE")
+    if op == "a.release":
+        return (d, s, c, (), s2), None
+    if op[:8] == "sa.push ":
+        sn = s2 + (int(op[8:]),)
+        return (d, s, c, d2, sn), sn
+    if op == "sb.pop":
+        return ((d, s, c, d2, s2[:-1]), s2[-1]) if s2 else (m, None)
+    if op == "sb.release":
+        return (d, s, c, d2, ()), None
     raise core.Broken(f"unknown op {op!r}")
 
 
@@ -271,21 +650,48 @@ MID = ["set x=2", "set y=1", "del x", "iter", "push 2", "pop", "release", "clean
 WRITES = ["set x=2", "set y=1", "del x", "push 2", "pop", "release", "cleanup", "newlist", "append", "cv=2"]
 CORE6 = ["set x=2", "del x", "push 2", "pop", "release", "append"]
 CORE4 = ["set x=2", "push 2", "pop", "release"]
-LINE8 = ["set x=2", "del x", "push 2", "pop", "release", "cleanup", "proxy x", "proxy top"]
-FULL_LINE = [o for o in FULL if o not in ("mkproxy", "proxy dyn")]   # w.dyn is deliberately process-global
-ALPH = {"full": FULL, "mid": MID, "fullline": FULL_LINE, "writes": WRITES, "core6": CORE6, "core4": CORE4,
-        "line8": LINE8}
-WRITE_OPS = set(WRITES) | {"set x=1", "push 1", "mkproxy"}
+LINE8 = ["set x=2", "del x", "push 2", "pop", "release", "cleanup", "rd x", "rd top"]
+# line level: w.dyn is deliberately process-global; single-proxy reads keep the number of scheduling points small
+FULL_LINE = [{"proxy x": "rd x", "proxy top": "rd top", "proxy cv": "rd cv"}.get(o, o)
+             for o in FULL if o not in ("mkproxy", "proxy dyn")]
+# round 2: one alphabet per mechanism the first round never entered
+PROXY = ["set x=2", "del x", "push 2", "pop", "newlist", "release", "cv=2", "bat x", "bat top", "bat cv", "bat l",
+         "iadd", "setitem0", "proxy x"]
+PROXY10 = ["set x=2", "del x", "pop", "newlist", "release", "bat x", "bat top", "bat l", "iadd", "setitem0"]
+PROXY6 = ["set x=2", "del x", "newlist", "bat x", "bat l", "iadd"]
+TWIN = ["a.set z=2", "b.set z=3", "b.del z", "a.get z", "a.release", "sa.push 2", "sb.pop", "sb.release", "set x=2",
+        "release"]
+TWIN6 = ["a.set z=2", "b.del z", "a.release", "sa.push 2", "sb.pop", "sb.release"]
+MW = ["mwopen", "mwclose", "mw", "cleanup0", "cleanup1", "release loc", "release st", "set x=2", "push 2", "pop"]
+MW6 = ["mwopen", "mwclose", "mw", "cleanup0", "set x=2", "push 2"]
+HOP = ["tt:set x=2", "tt:push 2", "tt:pop", "tt:release", "tt:append", "tt:del x", "ex:set x=2", "ex:push 2",
+       "ex:get x", "set x=2", "push 2", "pop"]
+HOP6 = ["tt:set x=2", "tt:pop", "tt:release", "ex:set x=2", "set x=2", "pop"]
+# round 2 (seed C18-2b): every binding door also holds FALSY objects - bound to 0 / "" / False / None is not unbound
+FALSY = ["set x=0", "set x=e", "set x=N", "push 0", "push e", "push F", "cv=0", "cv=e", "del x", "pop", "proxy x",
+         "proxy top", "proxy cv", "bat x", "bat top", "get x", "top"]
+FALSY10 = ["set x=0", "set x=N", "push 0", "push e", "cv=0", "pop", "del x", "proxy x", "proxy top", "proxy cv"]
+FALSY6 = ["set x=0", "push 0", "push e", "cv=0", "pop", "proxy top"]
+FALSY_LINE = ["set x=0", "push 0", "push F", "cv=0", "pop", "rd top", "rd x", "rd cv"]
+ALPH = {"falsy": FALSY, "falsy10": FALSY10, "falsy6": FALSY6, "falsyline": FALSY_LINE, "full": FULL, "mid": MID, "fullline": FULL_LINE, "writes": WRITES, "core6": CORE6, "core4": CORE4,
+        "line8": LINE8, "proxy": PROXY, "proxy10": PROXY10, "proxy6": PROXY6, "twin": TWIN, "twin6": TWIN6, "mw": MW, "mw6": MW6,
+        "hop": HOP, "hop6": HOP6}
+EXT_ALPH = {"proxy", "proxy10", "proxy6", "twin", "twin6", "mw", "mw6", "hop", "hop6"}   # families run in the extended world
+READ_OPS = {"rd x", "rd top", "rd cv", "get x", "iter", "top", "proxy x", "proxy top", "proxy cv", "proxy dyn", "bat x", "bat top", "bat cv",
+            "bat l", "a.get z", "ex:get x"}
 
 STARTS = {
     "empty": (),
     "used": ("set x=1", "push 1", "newlist", "cv=1"),
     "used-nolist": ("set x=1", "push 1", "cv=1"),
+    "used2": ("set x=1", "push 1", "newlist", "cv=1", "a.set z=1", "sa.push 1"),
+    "falsy": ("set x=0", "push 1", "push 0", "cv=0"),       # a parent already bound to falsy objects
 }
 
 # families: (arrangement, alphabet, ops per context, starts, realisations)
-#   arrangement "S2"/"S3": siblings (unordered: siblings are symmetric);
-#   "PC": parent (context 0) + child (context 1) spawned at every position of the parent's list
+#   "S2"/"S3": siblings (unordered: siblings are symmetric);
+#   "PC": parent (context 0) + child (context 1) spawned at every position of the parent's list;
+#   "SH": actors 0 and 1 live in ONE context (two tasks created with the same context=), actor 2 is a sibling
 QUICK = [
     ("S2", "mid", 2, ("used",), ("ctx",)),
     ("S2", "writes", 2, ("empty",), ("ctx",)),
@@ -298,33 +704,97 @@ QUICK = [
     ("S3", "core4", 1, ("used",), ("thr", "aio")),
     ("S2", "writes", 2, ("empty", "used"), ("aio",)),
     ("PC", "core6", 2, ("empty", "used"), ("aio",)),
+    # round 2
+    ("S2", "falsy10", 2, ("used", "falsy"), ("ctx",)),
+    ("PC", "falsy6", 2, ("empty", "falsy"), ("ctx", "aio")),
+    ("S2", "falsy6", 2, ("falsy",), ("thr", "aio")),
+    ("S2", "proxy10", 2, ("used2",), ("ctx",)),
+    ("S2", "twin", 2, ("used2",), ("ctx",)),
+    ("S2", "mw", 2, ("used2",), ("ctx",)),
+    ("S2", "hop6", 2, ("used2",), ("ctx",)),
+    ("PC", "proxy6", 2, ("used2",), ("ctx",)),
+    ("PC", "twin6", 2, ("used2",), ("ctx", "aio")),
+    ("PC", "mw6", 2, ("used2",), ("ctx", "aio")),
+    ("PC", "hop6", 2, ("used2",), ("ctx", "aio")),
+    ("S2", "twin6", 2, ("used2",), ("aio",)),
+    ("S2", "mw6", 2, ("used2",), ("thr", "aio")),
+    ("S2", "hop6", 2, ("used2",), ("aio",)),
+    ("S3", "hop6", 1, ("used2",), ("thr",)),
+    ("S2", "proxy6", 2, ("used2",), ("aio",)),
+    ("S2", "core6", 2, ("empty", "used"), ("aiox",)),
+    ("PC", "core4", 2, ("empty", "used"), ("aiox",)),
+    ("SH", "writes", 1, ("empty", "used"), ("ctx", "aio")),
+    ("SH", "mid", 1, ("used",), ("ctx",)),
 ]
 THOROUGH = [
     ("S2", "full", 2, ("empty", "used"), ("ctx", "aio")),
     ("S2", "writes", 2, ("empty", "used"), ("thr",)),
-    ("S2", "core6", 3, ("empty", "used"), ("ctx", "aio")),
+    ("S2", "core6", 3, ("empty", "used"), ("ctx",)),
+    ("S2", "core6", 3, ("used",), ("aio",)),
     ("S2", "core4", 3, ("empty", "used"), ("thr",)),
     ("PC", "full", 2, ("used",), ("ctx",)),
     ("PC", "writes", 2, ("empty", "used"), ("ctx", "aio")),
     ("PC", "core6", 2, ("empty", "used"), ("thr",)),
     ("PC", "core4", 3, ("empty", "used"), ("ctx", "aio")),
-    ("S3", "core6", 2, ("empty", "used"), ("ctx",)),
+    ("S3", "core6", 2, ("used",), ("ctx",)),
+    ("S3", "core4", 2, ("empty",), ("ctx",)),
     ("S3", "core4", 2, ("empty", "used"), ("aio",)),
     ("S3", "core4", 2, ("used",), ("thr",)),
     ("S3", "writes", 1, ("empty", "used"), ("ctx", "thr", "aio")),
+    # round 2
+    ("S2", "falsy", 2, ("empty", "used", "falsy"), ("ctx", "aio")),
+    ("S2", "falsy10", 2, ("empty", "falsy"), ("thr", "aiox")),
+    ("S2", "falsy6", 3, ("falsy",), ("ctx",)),
+    ("PC", "falsy10", 2, ("empty", "used", "falsy"), ("ctx", "aio")),
+    ("PC", "falsy6", 2, ("empty", "falsy"), ("thr",)),
+    ("S3", "falsy6", 1, ("falsy",), ("ctx", "thr", "aio")),
+    ("S2", "proxy", 2, ("empty", "used2"), ("ctx", "aio")),
+    ("S2", "twin", 2, ("empty", "used2"), ("ctx", "aio")),
+    ("S2", "mw", 2, ("empty", "used2"), ("ctx", "aio")),
+    ("S2", "hop", 2, ("empty", "used2"), ("ctx", "aio")),
+    ("S2", "mw6", 3, ("used2",), ("ctx",)),
+    ("S2", "hop6", 3, ("used2",), ("ctx",)),
+    ("PC", "proxy", 2, ("used2",), ("ctx",)),
+    ("PC", "twin", 2, ("used2",), ("ctx", "aio")),
+    ("PC", "mw", 2, ("used2",), ("ctx", "aio")),
+    ("PC", "hop", 2, ("used2",), ("ctx", "aio")),
+    ("PC", "twin6", 2, ("empty", "used2"), ("thr",)),
+    ("PC", "mw6", 2, ("empty", "used2"), ("thr",)),
+    ("PC", "hop6", 2, ("empty", "used2"), ("thr",)),
+    ("S2", "twin6", 2, ("empty", "used2"), ("thr",)),
+    ("S2", "mw6", 2, ("empty", "used2"), ("thr",)),
+    ("S2", "hop6", 2, ("empty", "used2"), ("thr",)),
+    ("S2", "proxy6", 2, ("empty", "used2"), ("thr",)),
+    ("S2", "writes", 2, ("empty", "used"), ("aiox",)),
+    ("PC", "core6", 2, ("empty", "used"), ("aiox",)),
+    ("S3", "core4", 1, ("used",), ("aiox",)),
+    ("SH", "writes", 1, ("empty", "used"), ("ctx", "aio", "aiox")),
+    ("SH", "core4", 2, ("empty", "used"), ("ctx", "aio")),
 ]
-# line level: (alphabet, ops per context, starts, preemption bound); two sibling threads
-LINE_QUICK = [("fullline", 1, ("used-nolist",), 2), ("fullline", 1, ("empty",), 1), ("core4", 2, ("used-nolist",), 1)]
-LINE_THOROUGH = [("fullline", 1, ("empty", "used-nolist"), 2), ("core4", 2, ("empty", "used-nolist"), 2),
-                 ("line8", 2, ("used-nolist",), 1)]
+# line level: (arrangement, alphabet, ops per context, starts, preemption bound)
+#   NB the line-level oracle is "every context behaves as if alone", which does not hold for a list shared BY VALUE
+#   (the order of appends is the schedule): line families never combine a start that stores a list with `append`
+#   "S2": two sibling threads;  "PC": the parent thread spawns the child thread (copy_context) at every position
+LINE_QUICK = [("S2", "falsyline", 1, ("falsy",), 1), ("S2", "fullline", 1, ("used-nolist",), 2), ("S2", "fullline", 1, ("empty",), 1),
+              ("S2", "core4", 2, ("used-nolist",), 1), ("S2", "mw6", 1, ("used-nolist",), 2),
+              ("S2", "twin6", 1, ("used2",), 1), ("PC", "core4", 1, ("used-nolist",), 2),
+              ("PC", "core4", 2, ("used-nolist",), 1)]
+LINE_THOROUGH = [("S2", "falsyline", 1, ("empty", "falsy"), 2), ("S2", "falsyline", 2, ("falsy",), 1),
+                 ("PC", "falsy6", 2, ("falsy",), 1),
+                 ("S2", "fullline", 1, ("empty", "used-nolist"), 2), ("S2", "core4", 2, ("empty", "used-nolist"), 2),
+                 ("S2", "line8", 2, ("used-nolist",), 1), ("S2", "mw6", 1, ("empty", "used-nolist"), 2),
+                 ("S2", "mw6", 2, ("used-nolist",), 1), ("S2", "twin6", 1, ("empty", "used2"), 2),
+                 ("S2", "twin6", 2, ("used2",), 1),
+                 ("PC", "core4", 1, ("empty", "used-nolist"), 2), ("PC", "core4", 2, ("empty", "used-nolist"), 2),
+                 ("PC", "core6", 2, ("used-nolist",), 1), ("PC", "mw6", 2, ("used-nolist",), 1)]
 # measured CPU seconds per program (all its schedules), only used to size shards
-LINE_COST = {("fullline", 1, 2): 0.5, ("fullline", 1, 1): 0.1, ("core4", 2, 2): 0.47, ("core4", 2, 1): 0.07,
-             ("line8", 2, 1): 0.27}
+LINE_COST = {1: {1: 0.1, 2: 0.5}, 2: {1: 0.3, 2: 0.6}}
+LINE_COST_PC = {1: {1: 0.01, 2: 0.05}, 2: {1: 0.05, 2: 0.15}}   # a child only exists after the spawn: far fewer schedules
 
 
 def programs(arr, alphabet, k):
     """Yield (progs, spawn_of).  Lists have exactly k operations: shorter programs are prefixes (every step is
-    judged, so they are covered).  Sibling arrangements are enumerated up to the order of the siblings."""
+    judged, so they are covered).  Symmetric actors are enumerated up to their order."""
     A = ALPH[alphabet]
     P = list(itertools.product(A, repeat=k))
     if arr == "S2":
@@ -333,6 +803,10 @@ def programs(arr, alphabet, k):
     elif arr == "S3":
         for ps in itertools.combinations_with_replacement(P, 3):
             yield ps, {}
+    elif arr == "SH":
+        for p01 in itertools.combinations_with_replacement(P, 2):
+            for p2 in P:
+                yield p01 + (p2,), {}
     elif arr == "PC":
         for p0 in P:
             for at in range(k + 1):
@@ -345,7 +819,8 @@ def programs(arr, alphabet, k):
 
 def n_programs(arr, alphabet, k):
     n = len(ALPH[alphabet]) ** k
-    return {"S2": n * (n + 1) // 2, "S3": n * (n + 1) * (n + 2) // 6, "PC": n * n * (k + 1)}[arr]
+    return {"S2": n * (n + 1) // 2, "S3": n * (n + 1) * (n + 2) // 6, "PC": n * n * (k + 1),
+            "SH": n * n * (n + 1) // 2}[arr]
 
 
 def outcome_tokens(start, progs):
@@ -361,17 +836,32 @@ def outcome_tokens(start, progs):
             if op == "spawn":
                 continue
             m, r = m_do(g, m, op, c)
-            cls = ("None" if r is None else r if r in ("AE", "RE", "NOPROXY") else
-                   "unbound" if r == UNBOUND else "bound" if op.startswith("proxy") else "val")
+            if r is None:
+                cls = "None"
+            elif isinstance(r, str) and r in ("AE", "RE", "IE", "NOPROXY", "NOITER"):
+                cls = r
+            elif op.startswith("bat"):
+                cls = "unbound" if isinstance(r[0], OneOf) else "bound"
+            elif op.startswith("rd "):
+                cls = "unbound" if len(r) == 4 else "bound"
+            elif op.startswith("proxy") and op != "proxy dyn":
+                cls = ("unbound" if r[0][0] == "RE" and len(r[0]) == 4
+                       else "bound-falsy" if len(r[0]) == 3 and r[0][1] is False else "bound")
+            elif op == "proxy dyn":
+                cls = "unbound" if len(r) == 4 else "bound"
+            else:
+                cls = "val"
             toks.add(f"out:{op}:{cls}")
     return toks
 
 
 # ------------------------------------------------------------------ op-level execution
 
-def execute(real_name, native, start, progs, spawn_of, order, R=None):
-    """Run one schedule; returns None (held) or a failure dict.  Counts transitions on R."""
-    w = World()
+def execute(real_name, native, start, progs, spawn_of, order, R=None, shared=False, ext=False, tolerated=None):
+    """Run one schedule; returns None (held) or a failure dict.  Counts transitions on R.
+    shared=True: actor 1 lives in actor 0's context (arrangement SH).  tolerated(failure) -> True: a wrong RESULT that
+    is an already recorded known finding; the schedule goes on (state comparisons are never tolerated)."""
+    w = World(ext)
     g = G()
     root = contextvars.Context()
     mroot = M0
@@ -380,37 +870,48 @@ def execute(real_name, native, start, progs, spawn_of, order, R=None):
         mroot, mr = m_do(g, mroot, op, "R")
         if r != mr:
             return {"step": -1, "what": "ret", "ctx": "root", "op": op, "got": r, "want": mr}
-    initial = [i for i in range(len(progs)) if i not in spawn_of]
+    initial = [i for i in range(len(progs)) if i not in spawn_of and not (shared and i == 1)]
     spawn_at = {pk: child for child, pk in spawn_of.items()}
     real = ilv.REALISATIONS[real_name](root, len(initial), native=native)
     try:
-        rcid = {p: i for i, p in enumerate(initial)}
-        models = {p: mroot for p in initial}
+        rcid = {p: i for i, p in enumerate(initial)}       # actor -> realisation handle
+        key = {p: p for p in initial}                        # actor -> context (model) key
+        models = {p: mroot for p in initial}                 # context key -> model state
+        if shared:
+            rcid[1] = real.share(rcid[0])
+            key[1] = 0
         idx = [0] * len(progs)
         for step, c in enumerate(order):
             k = idx[c]
             op = progs[c][k]
             idx[c] += 1
+            kc = key.get(c)
             if op == "spawn":
                 child = spawn_at[(c, k)]
                 rcid[child] = real.spawn(rcid[c])
-                models[child] = models[c]
+                key[child] = child
+                models[child] = models[kc]
                 r = mr = None
             else:
-                r = real.step(rcid[c], do, w, op, c)
-                models[c], mr = m_do(g, models[c], op, c)
+                if op[:3] in ("tt:", "ex:"):
+                    r = real.hop(rcid[c], op[:2], do, w, op[3:], c)
+                else:
+                    r = real.step(rcid[c], do, w, op, c)
+                models[kc], mr = m_do(g, models[kc], op, c)
             if R is not None:
                 R.count("transitions")
             if r != mr:
-                return {"step": step, "what": "ret", "ctx": c, "op": op, "got": r, "want": mr}
+                f = {"step": step, "what": "ret", "ctx": c, "op": op, "got": r, "want": mr}
+                if not (tolerated is not None and tolerated(f)):
+                    return f
             for j in models:
                 ob = real.probe(rcid[j], observe, w)
-                want = m_observe(g, models[j])
+                want = m_observe(g, models[j], ext)
                 if ob != want:
-                    return {"step": step, "what": "leak" if j != c else "own-state", "ctx": j, "op": op,
+                    return {"step": step, "what": "leak" if j != kc else "own-state", "ctx": j, "op": op,
                             "by": c, "got": ob, "want": want}
             ob = real.probe_root(observe, w)
-            want = m_observe(g, mroot)
+            want = m_observe(g, mroot, ext)
             if ob != want:
                 return {"step": step, "what": "leak-into-parent", "ctx": "root", "op": op, "by": c,
                         "got": ob, "want": want}
@@ -424,11 +925,25 @@ def sig_of(real_name, f):
     return f"op:{real_name}:{f['what']}:after-{op}"
 
 
-def check_program(R, real_name, native, sname, progs, spawn_of):
+def check_program(R, real_name, native, sname, progs, spawn_of, shared=False, ext=False):
     start = STARTS[sname]
     lengths = [len(p) for p in progs]
+    known_seen = []
+
+    def tolerated(f):
+        rec = {"kind": "op", "failure": f}
+        if not _f_none_python_lookup(rec):
+            return False
+        if not known_seen:      # one record per program is enough
+            known_seen.append(1)
+            R.violation(sig_of(real_name, f), {
+                "kind": "op", "real": real_name, "native": native, "start": sname,
+                "progs": [list(p) for p in progs], "spawn_of": {str(k): list(v) for k, v in spawn_of.items()},
+                "order": list(order), "shared": shared, "ext": ext, "failure": f})
+        return True
+
     for order in ilv.schedules(lengths, spawn_of):
-        f = execute(real_name, native, start, progs, spawn_of, order, R)
+        f = execute(real_name, native, start, progs, spawn_of, order, R, shared, ext, tolerated)
         R.count("executions")
         R.ev()
         R.count("states", len(order) + 1)
@@ -437,14 +952,19 @@ def check_program(R, real_name, native, sname, progs, spawn_of):
         first = (f["step"], f["what"], f["ctx"], f["got"])
 
         def again():
-            f2 = execute(real_name, native, start, progs, spawn_of, order)
+            f2 = execute(real_name, native, start, progs, spawn_of, order, None, shared, ext)
             return None if f2 is None else (f2["step"], f2["what"], f2["ctx"], f2["got"])
 
         ilv.confirm(again, first, f"{real_name} schedule {order} of {progs}")
         R.violation(sig_of(real_name, f), {
             "kind": "op", "real": real_name, "native": native, "start": sname, "progs": [list(p) for p in progs],
-            "spawn_of": {str(k): list(v) for k, v in spawn_of.items()}, "order": list(order), "failure": f})
+            "spawn_of": {str(k): list(v) for k, v in spawn_of.items()}, "order": list(order), "shared": shared,
+            "ext": ext, "failure": f})
         return   # one report per program: later merge orders of the same program mostly repeat it
+
+
+def writers(progs):
+    return sum(1 for p in progs if any(o not in READ_OPS and o != "spawn" for o in p))
 
 
 def run_op_unit(unit, R, tier):
@@ -453,7 +973,8 @@ def run_op_unit(unit, R, tier):
     n = 0
     for progs, spawn_of in gen.shard(programs(arr, alphabet, k), nshards, shard):
         for native in native_choices:
-            check_program(R, real_name, native, sname, progs, spawn_of)
+            check_program(R, real_name, native, sname, progs, spawn_of, shared=(arr == "SH"),
+                          ext=(alphabet in EXT_ALPH or sname == "used2"))
         n += 1
         for p in progs:
             R.use(*("op:" + o for o in p))
@@ -461,8 +982,7 @@ def run_op_unit(unit, R, tier):
         R.use(*toks)
         for tk in toks:
             R.outcome(tk)
-        writers = sum(1 for p in progs if any(o in WRITE_OPS for o in p))
-        if writers >= 2:
+        if writers(progs) >= 2:
             R.nontrivial((arr, sname, progs))
         if shard == 0 and n == 3:     # one sample per family (shard 0 of each), not the trivial first program
             R.sample({"level": "op", "real": real_name, "arrangement": arr, "start": STARTS[sname],
@@ -475,51 +995,72 @@ def run_op_unit(unit, R, tier):
 
 # ------------------------------------------------------------------ line-level execution
 
-def line_expected(start, progs):
-    """Contexts are isolated, so every context must see exactly what it would see running alone."""
+def line_expected(start, progs, spawn_of, ext=False):
+    """Contexts are isolated, so every context must see exactly what it would see running alone (a child: alone
+    from its parent's state at the spawn)."""
     g = G()
     mroot = M0
     for op in start:
         mroot, _ = m_do(g, mroot, op, "R")
-    exp = []
-    for c, p in enumerate(progs):
-        m = mroot
-        res = []
-        for op in p:
+    snap = {}
+    exp = {}
+    order = [c for c in range(len(progs)) if c not in spawn_of] + sorted(spawn_of)
+    spawn_at = {pk: child for child, pk in spawn_of.items()}
+    for c in order:
+        m = snap[c] if c in spawn_of else mroot
+        res_ = []
+        for i, op in enumerate(progs[c]):
+            if op == "spawn":
+                snap[spawn_at[(c, i)]] = m
+                res_.append(None)
+                continue
             m, r = m_do(g, m, op, c)
-            res.append(r)
-        exp.append((tuple(res), m_observe(g, m)))
-    return tuple(exp), m_observe(g, mroot)
+            res_.append(r)
+        exp[c] = (tuple(res_), m_observe(g, m, ext))
+    return tuple(exp[c] for c in range(len(progs))), m_observe(g, mroot, ext)
 
 
-def line_make(start, progs):
+def line_make(start, progs, spawn_of, ext=False):
+    spawn_at = {pk: child for child, pk in spawn_of.items()}
+
     def make():
-        w = World()
+        w = World(ext)
         root = contextvars.Context()
         for op in start:
             root.run(do, w, op, "R")
-        ctxs = [root.copy() for _ in progs]
+        ctxs = {c: root.copy() for c in range(len(progs)) if c not in spawn_of}
         results = [[] for _ in progs]
 
-        def body(c):
-            def run():
-                for op in progs[c]:
+        def ops(c):
+            for i, op in enumerate(progs[c]):
+                if op == "spawn":
+                    # what a parent does to start a worker in a snapshot of itself
+                    ctxs[spawn_at[(c, i)]] = contextvars.copy_context()
+                    results[c].append(None)
+                else:
                     results[c].append(ilv.call(do, w, op, c))
-            return run
+
+        def body(c):
+            if c in spawn_of:
+                return lambda: ctxs[c].run(ops, c)      # the context exists once the gate has opened
+            return lambda: ops(c)
 
         def obs():
-            return (tuple((tuple(results[c]), ctxs[c].run(observe, w)) for c in range(len(progs))),
-                    root.run(observe, w))
+            return (tuple((tuple(results[c]), ctxs[c].run(observe, w) if c in ctxs else "NEVER-SPAWNED")
+                          for c in range(len(progs))), root.run(observe, w))
 
-        return [body(c) for c in range(len(progs))], [cx.run for cx in ctxs], obs
+        bodies = [body(c) for c in range(len(progs))]
+        wrap = [None if c in spawn_of else ctxs[c].run for c in range(len(progs))]
+        gates = [(lambda c=c: c in ctxs) if c in spawn_of else None for c in range(len(progs))]
+        return bodies, wrap, obs, gates
 
     return make
 
 
-def check_lines(R, sname, progs, bound):
+def check_lines(R, sname, progs, bound, spawn_of, ext=False):
     start = STARTS[sname]
-    exp = line_expected(start, progs)
-    make = line_make(start, progs)
+    exp = line_expected(start, progs, spawn_of, ext)
+    make = line_make(start, progs, spawn_of, ext)
     found = []
 
     def on_exec(choices, preemptions, obs, trace):
@@ -549,28 +1090,78 @@ def check_lines(R, sname, progs, bound):
         kind = "thread-error" if obs and obs[0] == "THREAD-ERROR" else "isolation"
         R.violation(f"line:{kind}:preemptions={preemptions}", {
             "kind": "line", "start": sname, "progs": [list(p) for p in progs], "choices": choices,
-            "preemptions": preemptions, "trace": trace, "got": obs, "want": exp})
+            "spawn_of": {str(k): list(v) for k, v in spawn_of.items()},
+            "ext": ext, "preemptions": preemptions, "trace": trace, "got": obs, "want": exp})
     return stats
 
 
 def run_line_unit(unit, R, tier):
-    _k, alphabet, k, sname, bound, shard, nshards = unit
+    _k, arr, alphabet, k, sname, bound, shard, nshards = unit
+    if "newlist" in STARTS[sname] and {"append", "iadd", "setitem0"} & set(ALPH[alphabet]):
+        raise core.Broken(f"line family {unit}: a by-value shared list makes results schedule dependent")
     n = 0
-    for progs, _sp in gen.shard(programs("S2", alphabet, k), nshards, shard):
-        st = check_lines(R, sname, progs, bound)
+    for progs, spawn_of in gen.shard(programs(arr, alphabet, k), nshards, shard):
+        st = check_lines(R, sname, progs, bound, spawn_of, ext=(alphabet in EXT_ALPH or sname == "used2"))
         n += 1
-        if sum(1 for p in progs if any(o in WRITE_OPS for o in p)) >= 2:
-            R.nontrivial(("line", sname, progs))
+        for p in progs:
+            R.use(*("lineop:" + o for o in p))
+        if writers(progs) >= 2:
+            R.nontrivial(("line", arr, sname, progs))
         if shard == 0 and n == 2:
-            R.sample({"level": "line", "start": STARTS[sname], "programs": [list(p) for p in progs],
+            R.sample({"level": "line", "arrangement": arr, "start": STARTS[sname],
+                      "programs": [list(p) for p in progs],
                       "preemption_bound": bound, "executions": st["executions"],
                       "scheduling_decisions": st["points"], "per_level": st["per_level"]})
-    R.use("real:line", "start:" + sname)
+    R.use("real:line", "start:" + sname, "linearr:" + arr)
+
+
+# ------------------------------------------------------------------ static facts about the proxy class
+
+def run_static(R):
+    """Constructor forms and class-level behaviour that no schedule changes (checked once)."""
+    def expect(what, ok, detail=""):
+        R.ev()
+        R.count("executions")
+        R.use("static:" + what)
+        if not ok:
+            R.violation("static:" + what, {"kind": "static", "what": what, "detail": detail})
+
+    for bad, name in ((Local(), "local-without-name"), (42, "not-proxyable")):
+        try:
+            LocalProxy(bad)
+            expect(name, False, "no TypeError")
+        except TypeError:
+            expect(name, True)
+        except Exception as e:  # noqa: BLE001
+            expect(name, False, repr(e))
+    # every constructor form is unbound in a fresh context and says so the documented way
+    loc, st, cv = Local(), LocalStack(), contextvars.ContextVar("c18.static")
+    forms = {"local": loc("a", unbound_message="m1"), "local-ctor": LocalProxy(loc, "a", unbound_message="m1"),
+             "stack": st(unbound_message="m1"), "stack-name": st("real", unbound_message="m1"),
+             "var": LocalProxy(cv, unbound_message="m1"), "var-name": LocalProxy(cv, "real", unbound_message="m1")}
+    for name, p in forms.items():
+        got = contextvars.Context().run(rd, p)
+        expect("unbound:" + name, got == ("RE", False, FALLBACK_REPR, "m1"), repr(got))
+    # bound in one fresh context, still unbound in another one afterwards
+    def bind():
+        loc.a = 5
+        st.push(5)
+        cv.set(5)
+        return tuple(rd(p) for p in forms.values())
+    got = contextvars.Context().run(bind)
+    expect("bound-all-forms", got == tuple((5, True, "5") for _ in forms), repr(got))
+    got = contextvars.Context().run(lambda: tuple(rd(p)[0] for p in forms.values()))
+    expect("unbound-again-elsewhere", got == tuple("RE" for _ in forms), repr(got))
+    # accessed on the class a lookup is the descriptor itself, and the class keeps its docstring
+    expect("class-level-descriptor", type(LocalProxy.__repr__).__name__ == "_ProxyLookup")
+    expect("class-doc", isinstance(LocalProxy.__doc__, str) and "proxy" in LocalProxy.__doc__.lower())
+    expect("manager-forms", [len(LocalManager().locals), len(LocalManager(loc).locals),
+                             len(LocalManager([loc, st]).locals)] == [0, 1, 2])
 
 
 # ------------------------------------------------------------------ runner interface
 
-EXEC_US = {"ctx": 45.0, "thr": 520.0, "aio": 70.0}   # measured cost of one step (+probes), only used to size shards
+EXEC_US = {"ctx": 60.0, "thr": 560.0, "aio": 90.0, "aiox": 90.0}   # one step (+probes); only used to size shards
 
 
 def units(tier):
@@ -579,23 +1170,25 @@ def units(tier):
     u = []
     for arr, alphabet, k, starts, reals in fam:
         nprog = n_programs(arr, alphabet, k)
-        lengths = {"S2": [k, k], "S3": [k, k, k], "PC": [k + 1, k]}[arr]
+        lengths = {"S2": [k, k], "S3": [k, k, k], "SH": [k, k, k], "PC": [k + 1, k]}[arr]
         nsched = ilv.count_schedules(lengths, {1: (0, k // 2)} if arr == "PC" else None)
         for sname in starts:
             for real in reals:
-                cost = nprog * nsched * sum(lengths) * EXEC_US[real] * (2 if (real == "thr" and sname == "empty") else 1)
+                hopx = 3.0 if (alphabet.startswith("hop") and real == "thr") else 1.0
+                cost = (nprog * nsched * sum(lengths) * EXEC_US[real] * hopx
+                        * (2 if (real == "thr" and sname == "empty") else 1))
                 ns = max(1, min(nprog, int(cost / per_unit) + 1))
                 u.append((cost / ns, [("op", arr, alphabet, k, sname, real, i, ns) for i in range(ns)]))
-    for alphabet, k, starts, bound in (LINE_THOROUGH if tier == "thorough" else LINE_QUICK):
-        nprog = n_programs("S2", alphabet, k)
-        per_prog = LINE_COST[(alphabet, k, bound)] * 1e6
+    for arr, alphabet, k, starts, bound in (LINE_THOROUGH if tier == "thorough" else LINE_QUICK):
+        nprog = n_programs(arr, alphabet, k)
+        per_prog = (LINE_COST_PC if arr == "PC" else LINE_COST)[k][bound] * 1e6
         for sname in starts:
             cost = nprog * per_prog
             ns = max(1, min(nprog, int(cost / per_unit) + 1))
-            u.append((cost / ns, [("line", alphabet, k, sname, bound, i, ns) for i in range(ns)]))
+            u.append((cost / ns, [("line", arr, alphabet, k, sname, bound, i, ns) for i in range(ns)]))
     # heaviest units first so the pool drains evenly; deterministic
     u.sort(key=lambda t: -t[0])
-    return [x for _c, xs in u for x in xs]
+    return [("static",)] + [x for _c, xs in u for x in xs]
 
 
 def run_unit(unit, R, tier):
@@ -603,6 +1196,8 @@ def run_unit(unit, R, tier):
         run_op_unit(unit, R, tier)
     elif unit[0] == "line":
         run_line_unit(unit, R, tier)
+    elif unit[0] == "static":
+        run_static(R)
     else:
         raise core.Broken(f"unknown unit {unit!r}")
 
@@ -613,15 +1208,29 @@ def finalize(R, tier):
     for _a, al, _k, _s, _r in fam:
         ops |= set(ALPH[al])
     need = {"op:" + o for o in ops} | {"op:spawn"}
+    for _a, al, _k, _s, _b in (LINE_THOROUGH if tier == "thorough" else LINE_QUICK):
+        need |= {"lineop:" + o for o in ALPH[al]}
+    need |= {"lineop:spawn", "linearr:S2", "linearr:PC"}
     need |= {"out:del x:None", "out:del x:AE", "out:pop:val", "out:pop:None", "out:append:None", "out:append:RE",
              "out:proxy x:bound", "out:proxy x:unbound", "out:proxy top:bound", "out:proxy top:unbound",
              "out:proxy cv:bound", "out:proxy dyn:NOPROXY", "out:proxy dyn:bound", "out:proxy dyn:unbound",
-             "out:iter:val", "out:release:None", "out:cleanup:None"}
+             "out:iter:val", "out:release:None", "out:cleanup:None",
+             "out:bat x:bound", "out:bat x:unbound", "out:bat top:bound", "out:bat top:unbound",
+             "out:bat l:bound", "out:bat l:unbound", "out:iadd:None", "out:iadd:RE", "out:setitem0:None",
+             "out:setitem0:IE", "out:setitem0:RE", "out:mwopen:val", "out:mwclose:None", "out:mwclose:NOITER",
+             "out:mw:val", "out:cleanup0:None", "out:cleanup1:None", "out:release loc:None", "out:release st:None",
+             "out:b.del z:None", "out:b.del z:AE", "out:sb.pop:val", "out:sb.pop:None", "out:a.get z:val",
+             "out:a.get z:AE", "out:tt:pop:val", "out:tt:pop:None", "out:tt:set x=2:None", "out:ex:set x=2:None"}
     if tier == "thorough":
-        need |= {"out:get x:val", "out:get x:AE", "out:top:val", "out:top:None", "out:proxy cv:unbound"}
-    need |= {"real:ctx", "real:thr", "real:aio", "real:line", "thr:native", "arr:S2", "arr:S3", "arr:PC",
-             "start:empty", "start:used", "start:used-nolist", "line:preempted", "line:level0", "line:level1",
-             "line:level2", "line:many-points"}
+        need |= {"out:get x:val", "out:get x:AE", "out:top:val", "out:top:None", "out:proxy cv:unbound",
+                 "out:bat cv:bound", "out:bat cv:unbound", "out:tt:append:RE", "out:tt:del x:AE",
+                 "out:ex:get x:AE", "out:tt:del x:None", "out:tt:append:None"}
+    need |= {"op:push 0", "op:push e", "op:set x=0", "op:cv=0", "out:proxy top:bound-falsy", "out:proxy x:bound-falsy",
+             "out:proxy cv:bound-falsy", "start:falsy"}
+    need |= {"real:ctx", "real:thr", "real:aio", "real:aiox", "real:line", "thr:native", "arr:S2", "arr:S3",
+             "arr:PC", "arr:SH", "start:empty", "start:used", "start:used2", "start:used-nolist", "line:preempted",
+             "line:level0", "line:level1", "line:level2", "line:many-points", "static:class-level-descriptor",
+             "static:bound-all-forms", "static:local-without-name"}
     missing = need - R.used
     if missing:
         raise core.Broken(f"vacuity: never exercised {sorted(missing)}")
@@ -633,37 +1242,52 @@ def finalize(R, tier):
         "exhaustive": True,
         "closed": False,
         "realisations": ["contextvars.Context.run", "threads (semaphore baton)", "asyncio tasks (hand-driven loop)",
-                         "threads, line-level settrace baton"],
+                         "asyncio tasks created with explicit context=", "threads, line-level settrace baton"],
         "line_level": {"executions": R.counts["line_executions"], "scheduling_decisions": R.counts["line_points"]},
-        "explanation": "every merge order of every program of each family (siblings up to symmetry); line level: "
-                       "every schedule with at most the stated number of preemptions",
+        "explanation": "every merge order of every program of each family (symmetric actors up to order); line "
+                       "level: every schedule with at most the stated number of preemptions",
     }
 
 
 # ------------------------------------------------------------------ replay
 
+OBS_LEGEND = ("  (observation = attrs, stack, var, then what each proxy resolves to: loc('x'), st(), LocalProxy(var), "
+              "loc('l'), LocalProxy(loc,'y'), st('real'), LocalProxy(var,'real'), LocalProxy(callable); then the twin "
+              "objects over one ContextVar: Local a, Local b, stack a, stack b top, b('z'))")
+
+
 def replay(rec):
     if rec.get("kind") == "op":
         progs = tuple(tuple(p) for p in rec["progs"])
         spawn_of = {int(k): tuple(v) for k, v in rec["spawn_of"].items()}
-        f = execute(rec["real"], rec["native"], STARTS[rec["start"]], progs, spawn_of, tuple(rec["order"]))
-        text = (f"realisation={rec['real']} native_thread_context={rec['native']}\n"
+        shared = bool(rec.get("shared"))
+        f = execute(rec["real"], rec["native"], STARTS[rec["start"]], progs, spawn_of, tuple(rec["order"]),
+                    None, shared, bool(rec.get("ext")))
+        text = (f"realisation={rec['real']} native_thread_context={rec['native']} actors_0_1_share_a_context={shared}\n"
                 f"root prefix : {STARTS[rec['start']]}\nprograms    : {progs} spawn_of={spawn_of}\n"
                 f"merge order : {tuple(rec['order'])}\n")
         if f is None:
             return False, text + "no divergence from the model"
         return True, text + (f"after step {f['step']} (context {f.get('by', f['ctx'])} executed {f['op']!r}): "
                              f"{f['what']} in context {f['ctx']}\n  observed: {f['got']}\n  model   : {f['want']}\n"
-                             "  (observation = attrs, stack, var, proxy x, proxy top, proxy var, proxy l)")
+                             + OBS_LEGEND)
     if rec.get("kind") == "line":
         progs = tuple(tuple(p) for p in rec["progs"])
+        spawn_of = {int(k): tuple(v) for k, v in (rec.get("spawn_of") or {}).items()}
         start = STARTS[rec["start"]]
-        exp = line_expected(start, progs)
-        obs, trace, npts = ilv.run_lines(line_make(start, progs), list(rec["choices"]), TARGET)
-        text = (f"line-level schedule, root prefix {start}\nprograms : {progs}\nchoices  : {list(rec['choices'])} "
+        ext = bool(rec.get("ext"))
+        exp = line_expected(start, progs, spawn_of, ext)
+        obs, trace, npts = ilv.run_lines(line_make(start, progs, spawn_of, ext), list(rec["choices"]), TARGET)
+        text = (f"line-level schedule, root prefix {start}\nprograms : {progs} spawn_of={spawn_of}\n"
+                f"choices  : {list(rec['choices'])} "
                 f"({rec['preemptions']} preemptions, {npts} decisions)\nthread at each decision: {trace}\n"
                 f"observed : {obs}\nisolated : {exp}")
         return _plain(obs) != _plain(exp), text
+    if rec.get("kind") == "static":
+        R = core.Recorder()
+        run_static(R)
+        bad = any(s == "static:" + rec["what"] for (_c, s) in R.viol)
+        return bad, f"static fact {rec['what']!r}: {'still violated' if bad else 'holds'} ({rec.get('detail')})"
     return True, rec.get("traceback", "unit exception")
 
 
@@ -673,7 +1297,23 @@ def _plain(o):
     return o
 
 
-FINDINGS: dict = {}
+_BAT_NAMES = [n for n, _f, _m, _u in INT_BATTERY]
+
+
+def _f_none_python_lookup(rec):
+    """bat x / bat cv on a proxy bound to None: only the lookups implemented with a Python function differ."""
+    f = rec.get("failure") or {}
+    if rec.get("kind") != "op" or f.get("what") != "ret" or f.get("op") not in ("bat x", "bat cv", "tt:bat x"):
+        return False
+    got, want = f["got"], f["want"]
+    if len(got) != len(_BAT_NAMES) or len(want) != len(_BAT_NAMES):
+        return False
+    diff = {_BAT_NAMES[i] for i in range(len(got)) if got[i] != want[i]}
+    i = _BAT_NAMES.index("str")
+    return bool(diff) and diff <= {"copy", "deepcopy"} and want[i] == "None"
+
+
+FINDINGS: dict = {"C18-none-bound-python-function-lookup": _f_none_python_lookup}
 
 LEVEL_TEXT = (
     "Explicit enumeration of schedules on the real werkzeug.local objects: every merge order of every short "
